@@ -513,6 +513,7 @@ def k_rules(F, ctx):
 
     ctx.run("C05-K9", "a slot refreshed on some paths only is removed on the others (presence law) or its guard is constant per route (reasoned table)", k9, floor=15)
     ctx.run("C05-K10", "a solution context over another set of routes starts from an empty SolutionState", k10_fresh_solution_state, floor=5)
+    ctx.run("C05-K11", "private functions that write cached state are called from somewhere (no dead refresh code)", k11_refresh_code_is_live, floor=2)
     ctx.run("C05-K4", "every RouteState slot a FeatureState writes per route/insertion is also refreshed by its accept_solution_state (actor-only slots exempt)", k4, floor=12)
     ctx.run("C05-K5", "every RouteState slot written by accept_route_state is refreshed by accept_insertion (actor-only exempt)", k5, floor=12)
     ctx.run("C05-K5b", "per-insertion refresh is unconditional or guarded only by a dimension test it depends on", k5b, floor=12)
@@ -865,6 +866,31 @@ def k10_fresh_solution_state(F, r):
                        "(work balance, tour order violations, footprint ...) describe other tours, so fitness is no longer a function of the context's own tours", F.loc(fid, st.get("ln")))
     if n < 5:
         raise AnchorError(f"only {n} SolutionContext constructions found (6 counted on the pinned tree)")
+
+
+def k11_refresh_code_is_live(F, r):
+    """cache maintenance that is never called maintains nothing: every private function of the construction layer that WRITES a route / solution state slot has at least one
+    caller (a slot whose only writer lost its last call site keeps whatever was cached before — the slot tables K1–K9 would still see `a writer exists`)"""
+    n = 0
+    for fid, fn in sorted(F.fns.items()):
+        if fn["kind"] != "Fn" or "::promoted[" in fid or not fid.startswith("vrp_core::construction::"):
+            continue
+        if fn.get("vis", "") == "pub" or fn.get("impl_trait"):
+            continue
+        writes = [t for g in F.family(fid) for _, t in mir.calls(F.fns[g])
+                  if t["callee"].split("::")[-1].startswith("set_") and ("RouteState" in t["callee"] or "SolutionState" in t["callee"] or "state" in " ".join(t.get("argtys", [])[:1]).lower())]
+        if not writes:
+            continue
+        n += 1
+        cs = [c for c in cg.callers(F, fid) if F.root_of(c[0]) != fid]
+        name = util.short_fn(fid)
+        if cs:
+            r.ok(f"{name}: live", f"{len(cs)} call site(s)")
+        else:
+            r.fail(f"{name}: live", f"this function writes cached state ({writes[0]['callee'].split('::')[-1]}) but nothing calls it any more: the slot it maintains is never refreshed and keeps "
+                   "stale values (or stays empty)", F.loc(fid))
+    if n < 2:
+        raise AnchorError(f"only {n} private state-writing functions found in vrp_core::construction (2 counted on the pinned tree)")
 
 
 def run(ctx):
